@@ -2,7 +2,7 @@
     GENERATED from /repo on this run (Gen/GenArc.v), for all real inputs: closed form, points on the circle, start point,
     direction and sweep range, segment count, spacing <= 1 between consecutive samples, and -- when the commanded end point
     lies on the circle -- the end point IS the sample numbered N (angle start + sweep), so the final segment is no longer
-    than the others.  The radius form's centre is proved for axis-aligned chords and refuted otherwise (finding D7). *)
+    than the others, and every point of the arc is within one unit of a tested point (cover).  The radius form's centre is proved for axis-aligned chords and refuted otherwise (finding D7). *)
 From Coq Require Import Reals ZArith List Bool.
 From ER Require Import Base.Num Base.GenPrelude Gen.GenArc Proofs.ArcGen Proofs.ArcEnd.
 Import ListNotations.
@@ -57,6 +57,15 @@ Theorem C16_final_spacing : forall posX posY endX endY i j cw, (i <> 0 \/ j <> 0
   hypot (ax - endX) (ay - endY) <= 1.
 Proof. exact arc_final_spacing. Qed.
 
+(** cover: every point of the arc (a fraction u of the sweep after the start) is within one unit of a tested point --
+    so an arc reaching deeper than that into a region has a tested point inside it *)
+Theorem C16_cover : forall posX posY endX endY i j cw u, 0 <= u <= 1 ->
+  exists k : nat, (k <= Z.to_nat (arc_segments posX posY endX endY i j cw))%nat /\
+    let '(px, py) := arc_at posX posY endX endY i j cw u in
+    let '(sx, sy) := arc_point posX posY endX endY i j cw k in
+    hypot (px - sx) (py - sy) <= 1.
+Proof. exact arc_cover. Qed.
+
 (** radius form: proved for axis-aligned chords ... *)
 Theorem C16_radius_centre_partial : forall posX posY endX endY radius cw,
   radius <> 0 -> (posX <> endX \/ posY <> endY) -> (endX - posX) * (endY - posY) = 0 ->
@@ -82,5 +91,6 @@ Print Assumptions C16_spacing.
 Print Assumptions C16_end_on_circle.
 Print Assumptions C16_last_point.
 Print Assumptions C16_final_spacing.
+Print Assumptions C16_cover.
 Print Assumptions C16_radius_centre_partial.
 Print Assumptions C16_radius_centre_refuted.
